@@ -27,6 +27,16 @@ Letter == {"a", "b", "c", "d", "e", "f", "g", "h", "i", "j", "k", "l", "m", "n",
            "t", "u", "v", "w", "x", "y", "z", "A", "B", "C", "D", "E", "F", "G", "H", "I", "J", "K", "L",
            "M", "N", "O", "P", "Q", "R", "S", "T", "U", "V", "W", "X", "Y", "Z", "_"}
 IdChar == Letter \cup Digit
+(* Extended characters.  Every character outside the basic source character set counts as an identifier
+   character (6.4.2.1: universal character names / implementation-defined extended characters;
+   tokenize.c accepts the Annex D ranges).  TLC corrupts characters >= 0x80 in states that are swapped to
+   its disk queue (seen: U+00E9 came back as U+FFE9), so the specifications never hold such characters:
+   three ASCII characters that are not in the basic source character set stand for them, and the harness
+   (ppcase.XCH) writes the real characters into every file it produces and into every expected spelling:
+       "@" = U+00E9 (2 UTF-8 bytes)   "`" = U+3042 (3 bytes)   "$" = U+1D465 (4 bytes) *)
+NonAscii(c) == c \in {"@", "`", "$"}
+IsIdStart(c) == c \in Letter \/ NonAscii(c)
+IsIdChar(c) == c \in IdChar \/ NonAscii(c)
 Space  == {" ", "\t", "\n"}
 
 Punct3 == {"<<=", ">>=", "..."}
@@ -38,12 +48,12 @@ Punctuators == Punct1 \cup Punct2 \cup Punct3
 
 (* each scanner returns the index just after the token that starts at i *)
 RECURSIVE IdEnd(_, _)
-IdEnd(s, i) == IF Ch(s, i) \in IdChar THEN IdEnd(s, i + 1) ELSE i
+IdEnd(s, i) == IF IsIdChar(Ch(s, i)) THEN IdEnd(s, i + 1) ELSE i
 
 RECURSIVE NumEnd(_, _)          \* 6.4.8; tokenize.c "Numeric literal" loop
 NumEnd(s, i) ==
   IF Ch(s, i) \in {"e", "E", "p", "P"} /\ Ch(s, i + 1) \in {"+", "-"} THEN NumEnd(s, i + 2)
-  ELSE IF Ch(s, i) \in IdChar \cup {"."} THEN NumEnd(s, i + 1)
+  ELSE IF IsIdChar(Ch(s, i)) \/ Ch(s, i) = "." THEN NumEnd(s, i + 1)
   ELSE i
 
 RECURSIVE QuoteEnd(_, _, _)     \* closing quote; 0 = unterminated (string_literal_end)
@@ -81,7 +91,7 @@ TokEnd(s, i) ==
   IF c \in Digit \/ (c = "." /\ Ch(s, i + 1) \in Digit) THEN NumEnd(s, i + 1)
   ELSE IF StrPrefix(s, i) >= 0 THEN QuoteEnd(s, i + StrPrefix(s, i) + 1, "\"")
   ELSE IF ChrPrefix(s, i) >= 0 THEN QuoteEnd(s, i + ChrPrefix(s, i) + 1, "'")
-  ELSE IF c \in Letter THEN IdEnd(s, i)
+  ELSE IF IsIdStart(c) THEN IdEnd(s, i)
   ELSE PunctEnd(s, i)
 
 RECURSIVE LexFrom(_, _, _)
@@ -105,7 +115,7 @@ IsOneToken(s) == s # "" /\ TokEnd(s, 1) = Len(s) + 1 /\ Ch(s, 1) \notin Space
 KindOf(t) == IF Ch(t, 1) \in Digit \/ (Ch(t, 1) = "." /\ Ch(t, 2) \in Digit) THEN "num"
              ELSE IF StrPrefix(t, 1) >= 0 THEN "str"
              ELSE IF ChrPrefix(t, 1) >= 0 THEN "chr"
-             ELSE IF Ch(t, 1) \in Letter THEN "id"
+             ELSE IF IsIdStart(Ch(t, 1)) THEN "id"
              ELSE "punct"
 
 (* Level A statement of C19 for two adjacent tokens: the printer must put
